@@ -14,6 +14,13 @@ def nontrivial(c):
                 failed = True
             if obs and " got=none" not in obs:
                 delivered = True
+        elif p[1] in ("ltick", "confirm"):     # loop mode
+            if " acc=none" not in obs and " acc=" in obs:
+                delivered = True
+            if " insend=1" in obs and p[1] == "ltick" and " sends=0" in obs:
+                failed = True                   # a tick elapsed while the previous report was unconfirmed
+            if " sends=" in obs and " sends=0" not in obs and " acc=none" in obs:
+                failed = True                   # a send was refused
         elif p[1] == "fail":
             failed = True
         elif p[1] == "sent":
@@ -32,11 +39,15 @@ SPEC = dict(
          "cumulative readings for the 4 signals (unchanged readings, zero readings, big values; counter restarts in 15% of cases), "
          "whole send-loop iterations against scripted SendCustomMessage answers (per call: accepted / pending / error, or a channel "
          "never closed before shutdown; scripts a, pa, e, pe, pp, p, ppp, ppa, pep, ...) in runs of 0-4 failures, Add calls "
-         "during the send, and (30% of cases) raw NewReport / completeSend / give-up interleavings; every op's answer (decoded OTLP "
+         "during the send; (25% of cases) raw NewReport / completeSend / give-up interleavings; (25%) the real reportUsagePeriodically "
+         "goroutine on the fake clock against a one-slot client whose confirmation comes 0-2 ticks late, with send errors and foreign "
+         "messages in the slot, observed whenever all agent goroutines are parked; every op's answer (decoded OTLP "
          "payload, error class, number of SendCustomMessage calls, the tracker's three maps) is compared with the model; "
-         "non-trivial = has a non-zero reading, a delivered report and a failed report; distinct by transcript hash",
+         "non-trivial = has a non-zero reading, a delivered report and a failed report (loop mode: a refused send or a tick that "
+         "elapsed while a report was unconfirmed); distinct by transcript hash",
     trusted_base=["scripted OpAMP client (fake client.OpAMPClient: only SendCustomMessage; per-call answers accepted/pending/error, channel closed or never closed + shutdown)",
                   "pmetric.JSONUnmarshaler used to decode the report payload", "clockwork.FakeClock",
+                  "quiescence of the loop goroutine detected from runtime.Stack (all goroutines running *agent.Agent methods parked in select / chan receive)",
                   "Go map semantics (modelled as bags of contributions: entry exists iff a contribution of the signal exists)"],
     manifest=dict(
         text="Lean theorems over all histories of Add / NewReport / completeSend / send-failure in any interleaving (and over all "
